@@ -64,3 +64,12 @@ Definition restore_snapshot (l : logger) : logger :=
   end.
 
 Definition events (l : logger) : list event := map le_event (lg_events l).
+
+(* block level (pkg/consensus/abi_caller.go Execute, pkg/generator/abi_caller.go Events): the events answered by
+   BeforeTransactionsExecute, by every ExecuteTransaction (each numbered from 0 by its own logger) and by
+   AfterTransactionsExecute are concatenated and renumbered by Events.UpdateIndex *)
+Fixpoint update_index_from (evs : list event) (i : nat) : list event :=
+  match evs with [] => [] | e :: t => reindex e i :: update_index_from t (S i) end.
+Definition update_index (evs : list event) : list event := update_index_from evs 0.
+Definition block_events (before : list event) (txs : list (list event)) (after : list event) : list event :=
+  update_index (before ++ concat txs ++ after).
